@@ -135,7 +135,7 @@ impl Profile for ProxyTwin {
                         3 => Some(vec![Coin::new(rng.below(3) as u128, "ucoin"), Coin::new(1u128, "uatom"), Coin::new(2u128, "ucoin")]),
                         _ => None,
                     },
-                    label: match rng.below(6) { 0 | 1 => None, 2 => Some(String::new()), _ => Some(format!("lbl{}", sg.nonce())) },
+                    label: match rng.below(8) { 0 | 1 => None, 2 => Some(String::new()), 3 => Some(format!(" lbl{}\t", sg.nonce())), 4 => Some(rng.pick(&[" ", "  lead", "trail  ", "in side"]).to_string()), _ => Some(format!("lbl{}", sg.nonce())) },
                     admin: match rng.below(6) { 0 | 1 | 2 => Some(rng.pick(accounts).clone()), 3 => Some(String::new()), _ => None },
                     salt: if rng.chance(1, 3) { let n = rng.range(1, 8) as usize; Some(Doc(rng.bytes(n))) } else { None },
                 }));
